@@ -1243,3 +1243,83 @@ Lemma command_label_calm sty n : plain n -> calm sty (C1 ++ n ++ C1E).
 Proof. intros Hn. change C1 with (tag_str false NM_C1). change C1E with (tag_str true NM_C1). apply calm_wrap; [exact simple_c1|now apply plain_calm]. Qed.
 Lemma u_tag_calm sty n : plain n -> calm sty (u_tag n).
 Proof. intros Hn. unfold u_tag. change [60;117;62]%N with (tag_str false NM_U). change [60;47;117;62]%N with (tag_str true NM_U). apply calm_wrap; [exact simple_u|now apply plain_calm]. Qed.
+
+(* ---- the synopsis ---- *)
+Lemma calm_bracketed sty x : calm sty x -> calm sty ([91%N] ++ x ++ [93%N]).
+Proof. intros H. apply calm_app; [apply plain_calm; plain_const|]. apply calm_app; [exact H|apply plain_calm; plain_const]. Qed.
+Lemma synopsis_label_calm sty app_name names opts args prefix lo :
+  (match app_name with Some n => plain n | None => True end) -> Forall plain names -> plain prefix ->
+  calm sty (elem_label (synopsis sty app_name names opts args prefix lo)).
+Proof.
+  intros Ha Hn Hp. unfold synopsis. cbv zeta. cbn [elem_label]. set (parts := u_tag _ :: map u_tag names).
+  assert (Forall (calm sty) parts) as Hparts.
+  { subst parts. constructor.
+    - apply u_tag_calm. destruct app_name as [[|c r]|]; [plain_const|exact Ha|plain_const].
+    - clear - Hn. induction Hn; cbn [map]; constructor; auto. now apply u_tag_calm. }
+  apply calm_app; [now apply plain_calm|]. apply calm_join. destruct lo; [|exact Hparts].
+  destruct (removelast_last_P (calm sty) parts [] Hparts (calm_nil sty)) as [H1 H2].
+  apply Forall_app. split; [exact H1|]. constructor; [|constructor]. now apply calm_bracketed.
+Qed.
+
+(* "<name>" in the synopsis: escaped when the name is a style; else it must be no style - a tag the formatter does not know, or no
+   tag at all ("<...>") *)
+Definition ph_name (nm : str) : Prop :=
+  spaceless nm /\ (simple_nm nm \/ exists c r, nm = c :: r /\ tag_start c = false /\ c <> SLASH /\ no_lt nm).
+Lemma is_tag_style sty nm st : simple_nm nm -> style_of sty nm = Some st -> is_tag sty nm = true.
+Proof.
+  intros (Hn & Hh & He) Hs. unfold is_tag. cbv zeta.
+  set (probe := [60%N] ++ nm ++ [62; 60; 47]%N ++ nm ++ [62%N]).
+  assert (probe = tag_str false nm ++ [] ++ tag_str true nm) as Ep.
+  { subst probe. unfold tag_str. cbn [app]. now rewrite <- !app_assoc. }
+  assert (ends_with_bsl probe = false) as Eb.
+  { subst probe. rewrite !app_assoc. now rewrite ends_snoc. }
+  pose proof (calm_pair sty nm [] Hn Hh He (calm_nil sty)) as (_ & _ & Hneu). rewrite <- Ep in Hneu.
+  destruct (colorize sty false [] probe) as [[sk' out]|k] eqn:E.
+  - apply colorize_plain_of in E. rewrite Eb in E. cbn [snd].
+    assert (out = []) as ->; [|subst probe; reflexivity].
+    rewrite E. unfold plain_of, wout. fold (scan probe). rewrite Ep.
+    assert (scan (tag_str false nm ++ [] ++ tag_str true nm) =
+            mk [([], Tag (tag_str false nm) false nm); ([], Tag (tag_str true nm) true nm)] [] CText) as ->.
+    { cbn [app]. pose proof (lex_wrapped nm [] Hn ltac:(constructor)) as Hl. unfold lex, lex_end in Hl. unfold scan.
+      unfold open_tag, close_tag in Hl. cbn [app] in Hl. unfold tag_str. cbn [app].
+      destruct (fold_left lex_step _ lex_init) as [d c k]. cbn [l_done l_cur l_cand fst snd] in Hl. injection Hl as -> Hc.
+      destruct c; [|discriminate]. destruct k; try discriminate. reflexivity. }
+    cbn [mk l_done l_cur l_cand plain_segs raw_of app]. unfold kept, recognised. cbn [esc_of andb orb].
+    assert ((match nm with [] => true | _ => false end) = false) as -> by (destruct nm; [contradiction|reflexivity]).
+    rewrite (resolve_no_eq sty nm He), Hs. cbn [andb orb negb]. reflexivity.
+  - exfalso. destruct (colorize_of_effect sty false [] probe [] ) as [o Ho]; [rewrite Eb; apply Hneu|congruence].
+Qed.
+Lemma placeholder_shape sty nm : placeholder sty nm = (if is_tag sty nm then [BSL] else []) ++ LT :: nm ++ [GT].
+Proof. reflexivity. Qed.
+Lemma placeholder_calm sty nm t : ph_name nm -> no_lt t -> ends_with_bsl t = false -> calm sty (t ++ placeholder sty nm).
+Proof.
+  intros [_ [Hs|(c & r & -> & Hc & Hsl & Hl)]] Ht Hb; rewrite placeholder_shape.
+  - pose proof Hs as (Hn & Hh & He). change (LT :: nm ++ [GT]) with (tag_str false nm).
+    destruct (is_tag sty nm) eqn:Ei.
+    + rewrite app_assoc. apply calm_escaped; [exact Hn|exact Hh| |now rewrite ends_snoc].
+      apply Forall_app. split; [exact Ht|repeat constructor; discriminate].
+    + cbn [app]. apply calm_app; [now apply calm_text|]. apply calm_inert; [exact Hn|exact Hh|exact He|].
+      destruct (style_of sty nm) as [st|] eqn:Es; [|reflexivity]. rewrite (is_tag_style sty nm st Hs Es) in Ei. discriminate.
+  - assert (no_lt (c :: r ++ [GT])) as Hl'.
+    { change (c :: r ++ [GT]) with ((c :: r) ++ [GT]). apply Forall_app. split; [exact Hl|repeat constructor; discriminate]. }
+    assert (ends_with_bsl (c :: r ++ [GT]) = false) as He' by (change (c :: r ++ [GT]) with ((c :: r) ++ [GT]); now rewrite ends_snoc).
+    destruct (is_tag sty (c :: r)).
+    + rewrite app_assoc. cbn [app]. apply calm_raw; auto. apply Forall_app. split; [exact Ht|repeat constructor; discriminate].
+    + cbn [app]. now apply calm_raw.
+Qed.
+Lemma placeholder_munge sty nm : spaceless nm -> munge (placeholder sty nm) = placeholder sty nm.
+Proof.
+  intros H. apply munge_id. rewrite placeholder_shape. apply Forall_app. split; [destruct (is_tag sty nm); repeat constructor|].
+  constructor; [reflexivity|]. apply Forall_app. split; [exact H|repeat constructor].
+Qed.
+Lemma ph_name_snoc nm c : ph_name nm -> tag_char c = true -> tw_space c = false -> c <> HY -> ~ In EQS (lower1 c) -> c <> LT -> ph_name (nm ++ [c]).
+Proof.
+  intros [Hsp Hk] Hc Hw Hh He Hlt. split; [apply Forall_app; split; [exact Hsp|repeat constructor; exact Hw]|].
+  destruct Hk as [(Hn & Hhy & Heq)|(c0 & r & -> & H1 & H2 & H3)].
+  - left. split; [|split].
+    + destruct nm as [|c0 r]; [contradiction|]. destruct Hn as [Hn1 Hn2]. split; [exact Hn1|]. apply Forall_app. split; [exact Hn2|repeat constructor; exact Hc].
+    + intros Hin. apply in_app_or in Hin as [Hin|[Hin|[]]]; [contradiction|congruence].
+    + unfold py_lower. rewrite flat_map_app. intros Hin. apply in_app_or in Hin as [Hin|Hin]; [contradiction|]. cbn [flat_map] in Hin.
+      rewrite app_nil_r in Hin. contradiction.
+  - right. exists c0, (r ++ [c]). repeat split; auto. change (c0 :: r ++ [c]) with ((c0 :: r) ++ [c]). apply Forall_app. split; [exact H3|repeat constructor; exact Hlt].
+Qed.
